@@ -818,7 +818,7 @@ def c11_r17(ctx: Ctx, rule):
                     except AnalysisError:
                         continue
                     if any(getattr(v, "local", None) == "InternationalizedString" for v in vals):
-                        assigns = any(isinstance(a, ast.Assign) and any(isinstance(t, ast.Name) and "datatype" in t.id for t in a.targets) for b in n.body for a in ast.walk(b))
+                        assigns = any(isinstance(a, ast.Assign) for b in n.body for a in ast.walk(b))
                         if assigns:
                             n_cmp += 1
                             okc = isinstance(c.ops[0], ast.NotEq)
